@@ -65,6 +65,16 @@ def expand(chk):
                 and isinstance(s.target.slice, ast.Constant) and isinstance(s.value, ast.Constant):
             bias[s.target.slice.value] = bias.get(s.target.slice.value, 0) + s.value.value
     if len(shorts) < 6:
+        # fields that are stored only on some paths (under a flag, in a branch): the header test and the cell index of a header record
+        # read ALL six fields of every record, whatever outputs were requested
+        cond = sorted({n.targets[0].slice.value for b in fn.body if isinstance(b, (ast.If, ast.For, ast.While)) for n in ast.walk(b)
+                       if isinstance(n, ast.Assign) and isinstance(n.targets[0], ast.Subscript) and isinstance(n.targets[0].value, ast.Name)
+                       and n.targets[0].value.id == sp and isinstance(n.targets[0].slice, ast.Constant)} - set(shorts))
+        if cond and len(shorts) + len(cond) >= 6:
+            chk.refuted('C15-R1', P9, '_expand_to_short', 'all six 12-bit fields of a record are expanded unconditionally',
+                        f'fields {cond} are stored only on some paths: a header record keeps its cell index in fields 3..5, so when they are skipped every later '
+                        'position is decoded relative to stale / uninitialised cell indices (the result depends on which outputs were requested)', node=fn)
+            return
         raise AnalysisError(f'_expand_to_short: only {len(shorts)} short stores recognised')
     allbits = []
     for k in range(6):
@@ -186,7 +196,12 @@ def unpack(chk):
     H = hdr[0]
     # which name is the expanded-short buffer?
     exp = [n for n in walk_no_nested(lp) if isinstance(n, ast.Call) and dotted(n.func) == '_expand_to_short']
-    if len(exp) != 1 or len(exp[0].args) != 2:
+    if len(exp) == 1 and len(exp[0].args) + len(exp[0].keywords) > 2 and len(exp[0].args) >= 2:
+        extra_ = [unparse(a) for a in exp[0].args[2:]] + [f'{k.arg}={unparse(k.value)}' for k in exp[0].keywords]
+        chk.refuted('C15-R2', P9, '_unpack_pack9', 'every record is expanded in full before it is classified',
+                    f'_expand_to_short is called with {extra_}: the expansion of a record depends on something else than the record, while the header test and the '
+                    'cell index need all six fields of every record', node=exp[0])
+    elif len(exp) != 1 or len(exp[0].args) != 2:
         raise AnalysisError('_unpack_pack9: call of _expand_to_short not recognised')
     rec, sh = unparse(exp[0].args[0]), unparse(exp[0].args[1])
     # the test must look at byte 0 of the record that was expanded
